@@ -177,6 +177,36 @@ def _call(fn, *a):
         return ("raise", "%s: %s" % (type(e).__name__, e))
 
 
+def _lib_move_bug(old, new, patch):
+    import jsonpatch
+    try:
+        lib = jsonpatch.make_patch(copy.deepcopy(old), copy.deepcopy(new))
+        lib_ops = lib.patch
+        try:
+            lib_ok = lib.apply(copy.deepcopy(old)) == new
+        except Exception:
+            lib_ok = False
+    except Exception:
+        return False
+    if lib_ops != patch or lib_ok:
+        return False
+    if not any(o.get("op") == "move" for o in patch):
+        return False
+
+    def collision(d):
+        if isinstance(d, dict):
+            for k in d:
+                if "/" in k:
+                    head = k.split("/")[0]
+                    if head in d:
+                        return True
+            return any(collision(v) for v in d.values())
+        if isinstance(d, list):
+            return any(collision(v) for v in d)
+        return False
+    return collision(old) or collision(new)
+
+
 def check(case):
     from annet.annlib import jsontools
     labels = []
@@ -225,14 +255,18 @@ def check(case):
     if any(len(v) >= 2 for v in by_arr.values()):
         labels.append("array-multi-op")
     sta, out = _call(jsontools.apply_patch, json.dumps(old).encode(), json.dumps(patch).encode())
+    bad = None
     if sta == "raise":
-        # diagnosis for the recorded finding: the third-party jsonpatch library emits a 'move' to index -1 of an empty array when a key
-        # containing '/' collides with a nested path of the same spelling ('a/b' next to a -> b)
-        det2 = dict(det, array_ops=bool(by_arr), lib_move_to_minus_one=any(o.get("op") == "move" and o["path"].endswith("/-1") for o in patch))
-        labels.append(known_or_raise(PID, Violation("patch-does-not-apply", f"the patch made for (old,new) cannot be applied to old: {out}", det2)))
-        out = None
-    if out is not None and json.loads(out) != new:
-        raise Violation("patch-wrong-result", f"applying the patch to old gives {json.loads(out)!r}, not new {new!r}"[:600], dict(det, array_ops=bool(by_arr)))
+        bad = Violation("patch-does-not-apply", f"the patch made for (old,new) cannot be applied to old: {out}", det)
+    elif json.loads(out) != new:
+        bad = Violation("patch-wrong-result", f"applying the patch to old gives {json.loads(out)!r}, not new {new!r}"[:600], det)
+    if bad is not None:
+        # diagnosis for the recorded finding (root cause in the third-party jsonpatch library, not in annet): when a key containing '/'
+        # ('a/b') sits next to a nested path of the same spelling (a -> b), the library's move optimisation confuses the two arrays and
+        # emits a 'move' with a wrong target index (or index -1).  Listed only when (i) annet's patch IS the library's patch, unaltered,
+        # (ii) the library alone fails on its own patch, (iii) the patch contains such a move and the documents such a key collision.
+        bad.detail = dict(det, array_ops=bool(by_arr), third_party_move_bug=_lib_move_bug(old, new, patch))
+        labels.append(known_or_raise(PID, bad))
     # ---- (3) filters return parts of the document
     d = old
     stf, res = _call(jsontools.apply_acl_filters, copy.deepcopy(d), list(case["filters"]))
